@@ -20,6 +20,10 @@ from ..sir import pp, strip, AnalysisBroken
 
 DBL_MIN = 2.2250738585072014e-308
 CENTRE = 5
+# a second, steeper node visited BEFORE the centre in the same sweep (flat index 4, one lower
+# neighbour 9): whatever a router carries over from one node to the next reaches the centre
+PREV, PREV_NB = 4, 9
+PREV_SLOPE = 1.0e6
 GRID_SIZE = 16
 INF = float("inf")
 
@@ -139,6 +143,25 @@ class Table:
         self.cells[key] = v
 
 
+class FlatStorage:
+    """row-major buffer of a table (xt container .storage())"""
+
+    def __init__(self, table):
+        self.table = table
+
+    def __deepcopy__(self, memo):
+        return self
+
+
+class FlatIter:
+    def __init__(self, table, pos):
+        self.table = table
+        self.pos = pos
+
+    def __deepcopy__(self, memo):
+        return self
+
+
 class ColView:
     def __init__(self, table, col):
         self.table = table
@@ -179,7 +202,7 @@ class RouterWorld(World):
         self.exp_sym = Sym("exp", "p")
         self.slope_syms = {}
         for name in ("m_receivers", "m_receivers_distance", "m_receivers_weight", "m_donors"):
-            self.tables[name] = Table(name, ncols=2)
+            self.tables[name] = Table(name, ncols=8)     # any width >= 2: a multi-column layout
         for name in ("m_receivers_count", "m_donors_count"):
             self.tables[name] = Table(name)
         self.elev = Sym("elevarray", "elevation")
@@ -198,6 +221,10 @@ class RouterWorld(World):
     def elev_of(self, idx):
         if idx == CENTRE:
             return Sym("elev", "c", 0.0)
+        if idx == PREV:
+            return Sym("elev", "p", 100.0)
+        if idx == PREV_NB:
+            return Sym("elev", "pn", 50.0)
         n = self.nb_of(idx)     # (a node listed twice has the same elevation in both entries)
         if n is None:
             raise AnalysisBroken("router model: elevation of unknown node %r" % (idx,))
@@ -239,6 +266,8 @@ class RouterWorld(World):
         if op == "-" and ak == "elev" and bk == "elev":
             # sign lemma: sign(a - b) = order(a, b), exact under gradual underflow
             return Sym("drop", (a.tag, b.tag), a.data - b.data)
+        if op == "/" and ak == "drop" and bk == "dist" and a.tag == ("p", "pn") and b.tag == "pn":
+            return Sym("slope", "pn", PREV_SLOPE)
         if op == "/" and ak == "drop" and bk == "dist":
             src, dst = a.tag
             n = self.sc.nbs[int(b.tag[1:])]
@@ -380,6 +409,8 @@ class RouterWorld(World):
             if i == CENTRE:
                 return self.sc.centre_masked
             n = self.nb_of(i)
+            if i in (PREV, PREV_NB):
+                return False
             if n is None:
                 if isinstance(i, int) and 0 <= i < GRID_SIZE:
                     return True         # a bystander node (not the centre, not a neighbour): masked
@@ -395,12 +426,15 @@ class RouterWorld(World):
         if name == "grid" and callee.cls.endswith("flow_graph_impl"):
             return self.grid
         if name == "nodes_indices":
-            return PyVec([CENTRE])
+            return PyVec([PREV, CENTRE])
         if name == "size":
             return GRID_SIZE
         if name == "neighbors":
             out = PyVec()
             who = it.rv(it.eval(args[0], frame)) if args else CENTRE
+            if who == PREV:
+                out.append(Obj("fastscapelib::neighbor", {"idx": PREV_NB, "distance": Sym("dist", "pn"), "status": 0}))
+                return out
             if who != CENTRE:
                 return out      # the neighbourhood of any other node is outside the scenario: none
             for n in self.sc.nbs:
@@ -425,6 +459,18 @@ class RouterWorld(World):
             c = it.rv(it.eval(args[1], frame))
             if isinstance(t, Table):
                 return ColView(t, c)
+        if bn == "std::fill_n" and len(args) == 3:
+            a0 = it.rv(it.eval(args[0], frame))
+            if isinstance(a0, FlatIter):
+                cnt = it.rv(it.eval(args[1], frame))
+                v = it.rv(it.eval(args[2], frame))
+                if not isinstance(cnt, int):
+                    raise AnalysisBroken("router model: fill_n over an abstract count")
+                t = a0.table
+                for k in range(a0.pos, a0.pos + cnt):
+                    key = divmod(k, t.ncols) if t.ncols else (k,)
+                    t.cells[tuple(key) if t.ncols else key] = v
+                return FlatIter(t, a0.pos + cnt)
         if bn == "std::isfinite":
             v = it.rv(it.eval(args[0], frame))
             if isinstance(v, Scaled):
@@ -435,7 +481,12 @@ class RouterWorld(World):
             return NOT_HANDLED
         if obj is not None:
             o = it.rv(it.eval(obj, frame))
+            if isinstance(o, FlatStorage) and name in ("begin", "cbegin", "data"):
+                return FlatIter(o.table, 0)
             if isinstance(o, Table):
+                if name in ("storage", "data") and not args:
+                    # the flat row-major buffer behind the table
+                    return FlatStorage(o) if name == "storage" else FlatIter(o, 0)
                 if name in ("operator()", "operator[]", "flat", "at"):
                     key = tuple(it.rv(it.eval(a, frame)) for a in args)
                     if not all(isinstance(k, int) for k in key):
